@@ -34,6 +34,8 @@ UNIT_DEPS = {
     'prim_mul': ['mul', 'conv'],
     'round': ['core', 'pow10', 'types', 'context'],
     'config': ['types'],
+    'inverse': ['core', 'context', 'config'],
+    'prim_div': ['div', 'derived', 'conv', 'inverse'],
     'prec': ['round', 'digits', 'context', 'add', 'core'],
     'div': ['core', 'digits', 'config', 'cmp', 'derived', 'conv'],
     'toint': ['core', 'scale', 'pow10', 'conv'],
@@ -55,7 +57,8 @@ def closure(units):
     return seen
 
 
-FIX_COMMITS = ['6dbd058 fix: with_prec rounds negative values symmetrically (C07)']
+FIX_COMMITS = ['6dbd058 fix: with_prec rounds negative values symmetrically (C07)',
+               'c977df5 fix: DivAssign<integer> panics on a zero divisor (C08)']
 NOTES = ('Contract-based deductive verification (Verus) of functions re-extracted from /repo on every run; '
          'see DESIGN.md.  exit 2 = undecided because of the machinery (never a violation).')
 
@@ -101,13 +104,15 @@ prop('C07', units=['prec', 'round', 'digits', 'context', 'config', 'add', 'core'
      level_note=_NOTE_COMMON + ' get_rounding_term / digits() rely on float axiom A1. Closures inside with_precision_round carry inline contracts; the tuple-pattern closure parameter is rewritten (R2).',
      technique=_TECH)
 
-prop('C08', units=['div', 'digits', 'core', 'config', 'pow10', 'derived'], level='proof',
+prop('C08', units=['div', 'prim_div', 'inverse', 'digits', 'core', 'config', 'pow10', 'derived', 'conv'], level='proof',
      level_text=('Verus proves on the real body of impl_division (sign recursion, shift loop, digit loop, final rounding) that the result is '
                  'sign * (floor(E/|d|) rounded half-up on the remainder) with E = |n|*10^(S-s0), that digits are dropped only once the quotient has '
                  'max_precision digits (so a quotient that terminates earlier is returned exactly), loop termination, and freedom from i64 overflow; '
                  'and for the four decimal/decimal Div impls: a return implies a non-zero divisor (the intended panic is modelled as divergence), the '
-                 'zero-numerator / unit-divisor / equal-integers shortcuts are exact, otherwise impl_division is called with the configured precision'),
-     level_note=_NOTE_COMMON + ' get_rounding_term relies on float axiom A1. Primitive-integer and float divisor forms (macro impl_div_for_primitive) are being added; see DESIGN.md.',
+                 'zero-numerator / unit-divisor / equal-integers shortcuts are exact, otherwise impl_division is called with the configured precision; '
+                 'for all ten primitive integer types, by value and by reference, on either side and as /=: +-1 and +-2 are exact (identity / negation / exact half), '
+                 '1/x routes to inverse(), everything else is the decimal division of the converted integer, and a return implies a non-zero divisor (after the fix: commit for /=)'),
+     level_note=_NOTE_COMMON + ' get_rounding_term relies on float axiom A1. Float divisor forms (f32/f64 arms of impl_div_for_primitive) are not under contract (float comparisons are opaque to Verus).',
      technique=_TECH)
 
 prop('C09', units=['rem', 'scale', 'core', 'pow10'], level='proof',
